@@ -4,10 +4,10 @@ CONSTANTS
   Facts = {p}
   MaxOut = 2
   Runs = 1
-  FirstVisitCounts = TRUE
-  WaitForVisited = TRUE
+  FirstVisitCounts = FALSE
+  WaitForVisited = FALSE
   UnvisitedIsTop = FALSE
   RootsAreEntries = FALSE
-CONSTRAINT NoKill
+CONSTRAINT GenAt2
 INVARIANTS SweepBound
 CHECK_DEADLOCK FALSE
